@@ -1,5 +1,5 @@
 SPECIFICATION Spec21
-CONSTANTS KindSet = {"axis", "line", "text", "graph", "world"} MaxOps = 2 Lvl = 1
+CONSTANTS KindSet = {"axis", "line", "text", "graph", "world"} MaxOps = 2 Lvl = 1 Doors = "all"
 VIEW View21
 INVARIANTS TypeOK Refines OwnStrings InDomain
 PROPERTIES DoorSound Reads PrintEqual
